@@ -378,11 +378,14 @@ class Check:
             log(f"[{self.prop}] obligation FAILED: {name}: {str(detail)[:600]}")
         return ok
 
-    def lean_obligations(self):
-        """Build + forbidden-construct grep + axiom audit.  Returns True when all hold."""
-        ok, out = lake_build()
+    def lean_obligations(self, extra_targets=()):
+        """Build + forbidden-construct grep + axiom audit.  Returns True when all hold.
+        Only this property's theorem module (with what it imports) and the driver are built, so a
+        proof obligation of another property that no longer checks cannot raise an alarm here."""
+        ok, out = lake_build((f"SSVerif.Props.{self.prop}", "ssdriver") + tuple(extra_targets))
         self.lake_out = out
-        self.oblige("lake build (library + driver) succeeds", ok, out[-3000:] if not ok else "")
+        self.oblige(f"lake build SSVerif.Props.{self.prop} (+ imports) and the driver succeeds", ok,
+                    out[-3000:] if not ok else "")
         if not ok:
             return False
         hits = grep_forbidden()
